@@ -459,17 +459,9 @@ def _resolve_field_reference(field_reference, source_file_name, errors, ir):
     previous_field = ir_util.find_object_or_none(field_reference.path[0], ir)
     previous_reference = field_reference.path[0]
     for ref in field_reference.path[1:]:
-        if isinstance(previous_field, ir_data.RuntimeParameter):
-            # Parameters are integers or enums, and so have no members.
-            errors.append(
-                noncomposite_subfield_error(
-                    source_file_name,
-                    previous_reference.source_location,
-                    previous_reference.source_name[0].text,
-                )
-            )
-            return
-        while ir_util.field_is_virtual(previous_field):
+        while isinstance(previous_field, ir_data.Field) and ir_util.field_is_virtual(
+            previous_field
+        ):
             if previous_field.read_transform.which_expression == "field_reference":
                 # Pass a separate error list into the recursive _resolve_field_reference
                 # call so that only one copy of the error for a particular reference
@@ -502,6 +494,17 @@ def _resolve_field_reference(field_reference, source_file_name, errors, ir):
                     )
                 )
                 return
+        if isinstance(previous_field, ir_data.RuntimeParameter):
+            # Parameters (reached directly or through an alias) are integers or
+            # enums, and so have no members.
+            errors.append(
+                noncomposite_subfield_error(
+                    source_file_name,
+                    previous_reference.source_location,
+                    previous_reference.source_name[0].text,
+                )
+            )
+            return
         if previous_field.type.which_type == "array_type":
             errors.append(
                 array_subfield_error(
